@@ -327,7 +327,8 @@ REFINED = ["gcd_ops.rs dispatch (gcd / gcd_ext over inline/heap operands) and IB
            "base ring/gcd.rs unchecked_gcd_ext (Euclid with cofactors)", "base ring/gcd.rs Gcd::gcd + unchecked_gcd (binary gcd with the one-division shortcut)", "lehmer_guess / lehmer_step cofactor matrix (determinant 1 => gcd preserved)",
            "nth_root Newton iteration (up then down) and its stopping rule", "sqrt_rem_large normalisation / de-normalisation of root and remainder",
            "log_dword / log_word_base / log_large correction loops for any admissible first guess", "UBig::remove (squaring tower up, then down)",
-           "IBig::nth_root / sqrt / cbrt sign rules and panics"]
+           "IBig::nth_root / sqrt / cbrt sign rules and panics",
+           "no_std table estimator log2_fp8 / ceil_log2_fp8 over all u16, the u8 powering cases and the top-16-bit + shift lifting to wider integers (integer-level enclosure theorems by kernel evaluation)"]
 FRONTIER = ["gcd::gcd_in_place / gcd_ext_in_place (Lehmer loop over multi-word operands): specified by Nat.gcd / the Euclid loop",
             "base ring/gcd.rs two-width u128 gcd_ext (Euclid in two word sizes, cofactors recombined): specified by the single-width loop",
             "(a | b).trailing_zeros() is modelled as min(tz a, tz b)",
@@ -335,7 +336,7 @@ FRONTIER = ["gcd::gcd_in_place / gcd_ext_in_place (Lehmer loop over multi-word o
             "base ring/root.rs normalized_sqrt_rem / normalized_cbrt_rem (table + Newton): specified by the floor root, compared exhaustively for u8/u16",
             "f32 log2 first guesses of ilog: a parameter with the hypothesis the code asserts (base^est <= x)",
             "log2_bounds: bit-exact Float32 replica executed in the driver, enclosure decided exactly per call (no theorem about libm log2f)",
-            "no_std table estimator log2_fp8 / ceil_log2_fp8: mirrored; table theorem over all u16 (decide +kernel)"]
+            "f32 arithmetic of the estimators (x/256, + shift, next_up/next_down, *(1 +- 2^-22)): executed bit-exactly, not the subject of a theorem"]
 RULE = ("gcd pairs from {0/0, one zero, equal, common factor x cofactor size classes, one divides the other with any length gap, first "
         "quotient > 2^63, Fibonacci pairs (all quotients 1) up to 19300 bits, powers of two / long zero tails, near-equal top words, random "
         "0..320 words} x {UBig, IBig, mixed} x {gcd, gcd_ext}; radicands {0,1,perfect powers, perfect powers +-1, every (word count, "
@@ -363,6 +364,6 @@ LEVEL_NOTE = ("Trusted: Lean kernel; axioms propext/Classical.choice/Quot.sound;
 TECHNIQUE = "Lean 4 refinement/termination proofs (fuel + bound theorems) + differential correspondence + exact per-call enclosure checks"
 THEOREMS = ["Dashu.Props.C12." + t for t in ["gcd_prim_spec", "gcd_spec", "gcd_ext_prim_spec", "gcd_ext_bezout", "gcd_ext_bezout_driver", "lehmer_guess_det",
             "lehmer_step_preserves_gcd", "sqrt_rem_spec", "nth_root_spec", "cbrt_rem_spec", "ibig_root_spec", "ilog_spec", "remove_spec",
-            "log2_table_sound", "nth_root_zero_asIs_counterexample", "sqrt_rem_asIs_counterexample", "ibig_cbrt_asIs_counterexample",
+            "log2_table_sound", "log2_u8_table_sound", "log2_wide_table_sound", "nth_root_zero_asIs_counterexample", "sqrt_rem_asIs_counterexample", "ibig_cbrt_asIs_counterexample",
             "ilog_zero_asIs_counterexample", "gcd_ext_post_precondition_counterexample"]]
 READY = True
